@@ -5,7 +5,7 @@ use pdatastructs::topk::lossycounter::LossyCounter;
 use serde_json::json;
 use std::collections::{HashMap, HashSet};
 
-pub const RULE: &str = "with_width(w) for w in {1,2,3,4,7,10,100,1000} and with_epsilon(e) incl. non-reciprocal e (0.3, 0.07, 0.011); streams: 2-5 keys, uniform over 1e4 keys, Zipf, round-robin, adversarial (an element re-introduced right after every pruning boundary so f+delta sits exactly at the pruning threshold, and variants one above it); exact HashMap oracle; at every prefix (streams <= 5000) or at every window boundary -1/0/+1 plus 200 random prefixes: n(), add's return value vs the tracked set observed just before, no-miss / no-intruder for thresholds {0, e/2, e, 2e, 0.05, 0.1, 0.5, 1} and random ones, |query(0)| <= width*(H(ceil(n/width))+1). non-trivial = stream with >= 1 pruning that removed >= 1 entry; distinct = (config, stream kind, seed) tuples";
+pub const RULE: &str = "with_width(w) for w in {1,2,3,4,7,10,100,1000} and with_epsilon(e) incl. non-reciprocal e (0.3, 0.07, 0.011); streams: 2-5 keys, uniform over 1e4 keys, Zipf, round-robin, adversarial (an element re-introduced right after every pruning boundary so f+delta sits exactly at the pruning threshold, and variants one above it); exact HashMap oracle; at every prefix (streams <= 5000) or at every window boundary -1/0/+1 plus 200 random prefixes: n(), add's return value vs the tracked set observed just before, no-miss / no-intruder for thresholds {0, e/2, e, 2e, 0.05, 0.1, 0.5, 1} and random ones, |query(0)| <= width*(H(ceil(n/width))+1); epsilons a hair off 1/k (1/(k(1 +- d)), d = 4e-15..9e-7, and float-noise cases): 1-3 windows of distinct elements, each with true frequency 1 > epsilon*n, must all be in query(0). non-trivial = stream with >= 1 pruning that removed >= 1 entry; distinct = (config, stream kind, seed) tuples";
 pub const ASSUMPTIONS: &[&str] = &["boundary comparisons use a slack of 1e-9*max(1,n) so that the crate's own f64 arithmetic in (s - epsilon)*n is not contradicted by the checker's rounding"];
 
 fn harmonic(m: usize) -> f64 {
@@ -283,6 +283,46 @@ fn item(ctx: &Ctx, i: usize, rep: &mut Report) {
     }
 }
 
+/// Epsilons whose reciprocal is a hair above or below an integer k (and float-noise cases such as
+/// 1/(1/49)). The guarantees need a window of at least 1/epsilon elements: with a narrower one, a
+/// stream of `width` distinct elements is pruned completely at the first window boundary although
+/// each element has true frequency 1 > epsilon * n. The check exhibits exactly that miss.
+fn near_reciprocal(rep: &mut Report) {
+    let mut epss = vec![1.0 / 49.0, 1.0 / 3.0, 1.0 / 7.0, 1.0 / 93.0, 0.1 + 0.2 - 0.2];
+    for k in [2.0f64, 3.0, 10.0, 100.0, 1000.0] {
+        for d in [9e-7, 1e-7, 1e-9, 1e-12, 4e-15] {
+            epss.push(1.0 / (k + d * k));
+            epss.push(1.0 / (k - d * k));
+        }
+    }
+    for eps in epss {
+        rep.evaluations += 1;
+        let res = guarded(|| -> Option<(String, String)> {
+            let mut lc: LossyCounter<u64> = LossyCounter::with_epsilon(eps);
+            let (width, e) = (lc.width(), lc.epsilon());
+            for rounds in 1..=3usize {
+                for j in 0..width {
+                    lc.add((rounds * 1_000_000 + j) as u64);
+                }
+                let n = lc.n();
+                let got: std::collections::HashSet<u64> = lc.query(0.0).collect();
+                // elements of the window just completed: true frequency 1
+                if 1.0 > e * n as f64 {
+                    if let Some(j) = (0..width).find(|j| !got.contains(&((rounds * 1_000_000 + j) as u64))) {
+                        return Some(("C09/miss/window-narrower-than-1-over-epsilon".into(), format!("with_epsilon({:e}): width() = {}, epsilon() = {:e} (1/epsilon = {}); after {} distinct adds element #{} of the last window (true frequency 1 > epsilon*n = {}) is not in query(0)", eps, width, e, 1.0 / e, n, j, e * n as f64)));
+                    }
+                }
+            }
+            None
+        });
+        match res {
+            Ok(None) => rep.count("near_reciprocal_epsilons", 1),
+            Ok(Some((sig, what))) => rep.violation(sig, what, json!({"epsilon": eps})),
+            Err(msg) => rep.violation(format!("C09/panic/{}", panic_class(&msg)), format!("with_epsilon({:e}): {}", eps, msg), json!({"epsilon": eps})),
+        }
+    }
+}
+
 pub fn run(ctx: &Ctx) -> Report {
     let n = match (ctx.tier, ctx.is_dbg()) {
         (Tier::Quick, false) => 2500,
@@ -290,7 +330,12 @@ pub fn run(ctx: &Ctx) -> Report {
         (Tier::Thorough, false) => 40_000,
         (Tier::Thorough, true) => 2500,
     };
-    let mut rep = par_run(ctx, n, |i, rep| item(ctx, i, rep));
+    let mut rep = par_run(ctx, n, |i, rep| {
+        if i == 0 {
+            near_reciprocal(rep);
+        }
+        item(ctx, i, rep)
+    });
     rep.require_events(&["LossyPrune"]);
     rep
 }
